@@ -23,7 +23,9 @@
        error (C14_pipeline_events); AFTER EVERYTHING ELSE: from the first on_pipeline_complete on, the history grows by
        on_pipeline_complete callbacks only (C14_pipeline_complete_comes_last);
      - on_node_start comes first for each node: every body invocation -- first attempt or retry, in any iteration of a recurrent
-       subgraph -- comes after every manager's on_node_start for that node (C14_node_start_comes_before_the_body).
+       subgraph -- comes after every manager's on_node_start for that node (C14_node_start_comes_before_the_body), and so does every
+       on_node_complete of the node -- the final one as well as the one reporting a failed attempt that is going to be retried
+       (C14_node_complete_follows_node_start);
      - a node's value is stored -- hence can reach a consumer, the artifact store or the caller -- only after every manager
        has been told on_node_complete(node, error=None) (C14_values_are_stored_after_node_complete; "value": not a contained
        failure, which inside a one-of scope is stored as a result and was reported with on_node_complete(error); "node": not the
@@ -32,7 +34,7 @@
      - a body is invoked only after every manager has seen the successful on_node_complete of each of its inputs
        (C14_on_plain_programs_values_follow_node_complete).
    Decided on the implementation only (oracle on the merged event / body trace, every run): the identity of the PipelineResult
-   object, the exact order start -> (complete(err))* -> final complete within one execution, and value-after-complete on
+   object, the exact number of on_node_complete callbacks per attempt within one execution, and body-after-input-complete on
    programs that are not plain. *)
 From MLPE Require Import Engine.Run Spec.Dataflow Proofs.ExecLemmas Proofs.Evolve Proofs.StackInv Proofs.CancelProofs
      Explore.StateEq Explore.Erase Explore.Explorer Explore.Safe Catalogue.Programs Catalogue.Certified Proofs.CertLemmas.
@@ -160,3 +162,14 @@ Proof.
   - intros m ev n k. reflexivity.
   - reflexivity.
 Qed.
+
+(* every on_node_complete(n, ...) seen by any manager comes after every manager's on_node_start for a node with the same body
+   (the retry loop reports failed attempts under the node's own id; the id is read off the body index) *)
+From MLPE Require Import Proofs.CompleteAll.
+Theorem C14_node_complete_follows_node_start :
+  forall P, managers_do_not_raise P ->
+  forall st, reachable P st ->
+    forall a b m n e r, st_trace st = a ++ OEmit m EvNodeComplete (Some n) e r :: b ->
+      exists nd, real_index nd = real_index n /\ forall m', m' < p_mgrs P -> In (start_ev m' nd) b.
+Proof. exact node_complete_follows_node_start_all_programs. Qed.
+Print Assumptions C14_node_complete_follows_node_start.
